@@ -847,7 +847,7 @@ func c12Random(s Src, tier string) *Case {
 	if tier == "thorough" {
 		n = 14
 	}
-	return c12Case(s, tier, n)
+	return applySched(s, c12Case(s, tier, n), false)
 }
 
 // c12Systematic: every single operation after a two-key literal, and small
